@@ -671,7 +671,12 @@ func runUnit(sp *spec, u *unitSpec, ui int, scratch, tier, replay string, seed i
 					}
 				}
 			}
-			if werr != nil && !(u.Race && len(races)+len(outside) > 0) {
+			if werr != nil && len(results[s].Violations) > 0 {
+				// the harness recorded violations and then died (typically state leaking
+				// between executions makes a replayed prefix diverge): the violations are
+				// the verdict, the crash is reported as a note
+				fmt.Fprintf(os.Stderr, "vcheck: note: %s shard %d ended abnormally after recording %d violation(s): %v\n", u.Name, s, len(results[s].Violations), werr)
+			} else if werr != nil && !(u.Race && len(races)+len(outside) > 0) {
 				errs[s] = fmt.Errorf("shard %d: test binary failed after writing its result: %v\n%s", s, werr, tail(buf.String(), 60))
 			}
 			if results[s].Unit == "" {
